@@ -77,7 +77,7 @@ COMMON_TRUST = [
 # ---------------------------------------------------------------------------------------------
 C13 = {
     "id": "C13",
-    "level": "proof",
+    "level": "other",
     "units": [{
         "group": "runtime_vmap", "timeout_s": 1200,
         "harnesses": [
@@ -133,6 +133,18 @@ C13 = {
     "level_text": "Bounded inductive proof by CBMC over the real revert/insert/delete/add_command code: one operation from an arbitrary (field-by-field constructed) state is compared with a flat map model; revert(i) is shown to keep exactly commands[..i] (linear) / fact_log[..i] (session), to leave nothing pending, and to rebuild the visible facts as base;retained updates from an overlay that is arbitrary garbage - when writes of a failed rule are pending at equal command count, when commands are dropped, and when the session overlay Arc is shared; at equal count with nothing pending nothing changes. Because pre-states are arbitrary, the steps compose (argument written in harness/runtime/revert.rs) to histories of any length within the size bound. The LITERAL statement (a checkpoint taken while writes are pending) is a separate harness and FAILS for LinearPerspective: recorded as known finding (native test in replays/C13).",
     "level_note": "Trusted: Kani/CBMC; std BTreeMap replaced by harness OrdMap (checked separately by vmap_* harnesses); memory-safety checks off; vectors read back by revert live in stack buffers; sizes as in bounds. KNOWN FINDING: LinearPerspective::checkpoint records only commands.len(), so a checkpoint taken while fact writes are pending makes revert drop the pre-checkpoint writes too (harness c13_linear_checkpoint_with_pending_writes; in-tree callers only checkpoint with nothing pending). The session half relies on C14 for 'a session write changes exactly its key and is logged', which CBMC could NOT decide (see C14 outside_claim): for SessionPerspective the write step is by inspection (two lines: fact_log.push + map insert).",
 }
+
+C13["explanation"] = (
+    "Decided kernel (solver, real code, arbitrary pre-states within the size bound): for the graph perspective every ingredient of "
+    "'revert to a checkpoint taken with no write pending is exact' - writes change exactly their key and are logged, add_command moves "
+    "the pending writes into the command and refuses a wrong parent without change, revert(i) keeps commands[..i], clears the pending "
+    "writes of a failed rule and rebuilds the facts as base;retained updates from any (stale) overlay; for the session revert(i) keeps "
+    "fact_log[..i] and rebuilds the overlay from it (Arc shared or not). Not decided by the solver: (a) the statement's literal "
+    "quantifier includes checkpoints taken while writes are pending; there LinearPerspective::revert is NOT exact (known finding, "
+    "harness c13_linear_checkpoint_with_pending_writes fails as recorded; SessionPerspective is exact there: its checkpoint is the log "
+    "length); (b) that a session write keeps current_facts == replay(fact_log) (C14 write-step harnesses exceed 14 GB; two-line "
+    "function, by inspection); (c) direct multi-operation histories (time out); the composition of the steps is a paper argument "
+    "written in harness/runtime/revert.rs.")
 
 # ---------------------------------------------------------------------------------------------
 C14 = {
@@ -270,7 +282,6 @@ RUN = {
     "c13_session_revert_step_small": (Q, 80), "c13_session_revert_step_to_empty": (Q, 48), "c13_session_revert_step_noop": (Q, 79),
     "c13_session_revert_step_full": (T, 120),
     # C14
-    "c14_action_step_min": (T, None), "c14_receive_step_min": (T, None), "c14_overlay_prefix_min": (T, None),
     "c14_overlay_exact_small": (Q, 93), "c14_overlay_exact_full": (T, 110), "c14_prefix_iter_small": (T, 406),
     # C12
     "c12_index_chain_exact_small": (Q, 190), "c12_index_chain_exact_deep": (T, 269),
@@ -285,8 +296,8 @@ DROPPED = {
     "C14": [
         "c14_write_step_* (SessionPerspective::insert/delete from any state): > 14 GB in every size, even on an empty overlay (Arc::make_mut's clone path + fact_log push)",
         "c14_merge_iter_* (session QueryIterator sorted merge over harness iterators, 2+2 items): > 14 GB (Peekable + key re-collection `k.iter().cloned().collect()` give symbolic-size allocations)",
-        "c14_overlay_prefix_* (full query_prefix stack): timeout / > 14 GB for 2+2 entries",
-        "c14_action_step_* / c14_receive_step_* (real Session::action / receive with a failing policy): timeout 20 min at base<=1, log 1, script 1",
+        "c14_overlay_prefix_* (full query_prefix stack: base index + Arc/Yoke/PrefixIter + merge): timeout / > 14 GB for 2+2 entries, > 10 GB after 12 min for 1+1",
+        "c14_action_step_* / c14_receive_step_* (real Session::action / receive with a failing policy): timeout 20 min at base<=1, log 1, script 1 (heap fact_log); the stack-backed variant was not measured for lack of time",
         "c14_overlay_exact_mixed, c14_prefix_iter_mixed (compound keys): no verdict within the time available",
     ],
     "C12": [
